@@ -612,7 +612,7 @@ func c44Scenarios() []c44Params {
 
 func TestVerifC44(t *testing.T) {
 	defer vsched.Finish(t)
-	start := time.Now()
+	start := c42SharedStart()
 	r := vsched.Rep()
 	r.Assumption("controller-to-controller traffic is intercepted by wrapping the controllers' mailboxes after the real spawn transaction; the endpoints are harness actors following the documented contract; volatile work queue; worker death reaches the producer controller through the local death watch (not a pool message)")
 	scs := c44Scenarios()
